@@ -847,7 +847,7 @@ theorem C13_inv_step (q : Quirks) (S : Schema) (a : Alloc σ) (ha : a.Valid) (st
         have k := e.1.addFact S ha S.fuel _ f _ _ false e.2.1 e.2.2.1
         split
         · exact k.1
-        · exact k.1.heap_irrelevant _ (by simp) (by simp) (by simp)
+        · exact Inv.collect' (k.1.heap_irrelevant _ (by simp) (by simp) (by simp))
     · exact hI
   | mkq k c dom =>
     dsimp only
